@@ -13,7 +13,7 @@ PROP = {'title': 'optional / either / variant combinators satisfy their algebrai
                'needs; no test enumerates functions.',
  'level_note': 'element types are small value classes whose move operations poison the source, so use-after-move and moves out of lvalue '
                'arguments show up as wrong values; n-ary (n=3) applications use one injective recording function instead of all tables; '
-               'quick tier: containers up to length 3 and binary tables into a 2-element codomain',
+               'quick tier: containers up to length 3, binary tables into a 2-element codomain, monad::do_ on either with 25 of the 125 first-step tables',
  'binaries': [{'name': 'C04',
                'sources': ['harness/C04.cpp', 'harness/C04_either.cpp', 'harness/C04_variant.cpp'],
                'libs': [],
